@@ -458,6 +458,13 @@ macro_rules! construct {
                 $front = Ok($front?);
             }
             $(let $fields = $fields.eval(args);)*
+            // output finalized by a subcommand (its help, version or error) was produced
+            // after consuming its items from the shared state, it takes priority over
+            // failures of the fields declared before it
+            $(let $fields = match $fields {
+                ::std::result::Result::Err(e) if e.is_final_output() => return ::std::result::Result::Err(e),
+                x => x,
+            };)*
             let $front = $front?;
             $(let $fields = $fields?;)*
 
